@@ -51,6 +51,14 @@ pub enum Event {
         grew: bool,
         items_after: Vec<StateItem>,
     },
+    /// One step of `ImmutContext::get_closure`. `kind` is "start" (`items` = the kernel as queued),
+    /// "skip" (`item` was popped and was already present), "expand" (`item` was popped and inserted,
+    /// `items` = what it pushed, in order) or "end" (`items` = the resulting item set).
+    Closure {
+        kind: &'static str,
+        item: Option<StateItem>,
+        items: Vec<StateItem>,
+    },
     /// The table filler is looking at `item` of state `state` (every item, in scan order).
     ScanItem { state: usize, item: StateItem },
     /// `TableBuilder::set_action` was called.
